@@ -168,6 +168,8 @@ macro_rules! impl_ChunkCacheLruEncoded {
         ) -> Result<Arc<crate::array::ArrayBytes<'static>>, ArrayError> {
             let chunk_encoded = self
                 .try_get_or_insert_with::<_, ArrayError>(chunk_indices.to_vec(), || {
+                    #[cfg(zarrs_verif)]
+                    self.verif_fill_probe();
                     Ok(Arc::new(
                         array.retrieve_encoded_chunk(chunk_indices)?.map(Cow::Owned),
                     ))
@@ -220,6 +222,8 @@ macro_rules! impl_ChunkCacheLruDecoded {
             options: &crate::array::codec::CodecOptions,
         ) -> Result<Arc<crate::array::ArrayBytes<'static>>, ArrayError> {
             self.try_get_or_insert_with::<_, ArrayError>(chunk_indices.to_vec(), || {
+                #[cfg(zarrs_verif)]
+                self.verif_fill_probe();
                 Ok(Arc::new(
                     array
                         .retrieve_chunk_opt(chunk_indices, options)?
@@ -264,6 +268,35 @@ impl ChunkCache<ChunkCacheTypeEncoded> for ChunkCacheEncodedLruSizeLimit {
 impl ChunkCache<ChunkCacheTypeDecoded> for ChunkCacheDecodedLruSizeLimit {
     impl_ChunkCacheLruDecoded!();
     impl_ChunkCacheLruCommon!(ChunkCacheTypeDecoded);
+}
+
+/// Verification probe called at the start of a cache fill closure: the cache's own lock must not be held
+/// while the closure (which may run rayon work) executes.
+#[cfg(zarrs_verif)]
+impl<CT: ChunkCacheType> ChunkCacheLruChunkLimit<CT> {
+    fn verif_fill_probe(&self) {}
+}
+#[cfg(zarrs_verif)]
+impl<CT: ChunkCacheType> ChunkCacheLruSizeLimit<CT> {
+    fn verif_fill_probe(&self) {}
+}
+#[cfg(zarrs_verif)]
+impl<CT: ChunkCacheType> ChunkCacheLruChunkLimitThreadLocal<CT> {
+    fn verif_fill_probe(&self) {
+        crate::storage::verif_hooks::emit(
+            "tlcache.fill",
+            &[u64::from(self.cache().try_lock().is_err())],
+        );
+    }
+}
+#[cfg(zarrs_verif)]
+impl<CT: ChunkCacheType> ChunkCacheLruSizeLimitThreadLocal<CT> {
+    fn verif_fill_probe(&self) {
+        crate::storage::verif_hooks::emit(
+            "tlcache.fill",
+            &[u64::from(self.cache().try_lock().is_err())],
+        );
+    }
 }
 
 /// Verification probe: a thread-local cache mutex can only be busy if the current thread already holds it.
